@@ -1160,6 +1160,17 @@ def _corpus_cases():
     return out
 
 
+def generate(ctx):
+    """ast translator (round 4): rewrites lean/Scico/Generated/ProxCalcTables.lean from the working tree of $SCICO_REPO"""
+    import proxcalc_translate
+
+    tabs = proxcalc_translate.generate()
+    ctx.extra["translated_tables"] = {"flag tables": sorted(tabs["flags"]), "call sites": len(tabs["calls"]), "defaults": len(tabs["defaults"]),
+                                      "metric functions": [m for m, _ in tabs["metrics"]], "raise sites": len(tabs["raises"]),
+                                      "prox classes": tabs["prox_classes"], "loss classes": tabs["loss_classes"]}
+    return [("Scico.Generated.ProxCalcTables", "capability-flag logic of every wrapper constructor and loss class executed on all valuations = model (hasEval/hasProx/scaledHasProxOf/lossClsFlags); **kwargs forwarding sites and argument expressions; constructor defaults; raised exception classes; classes defining prox")]
+
+
 def correspond(ctx, model):
     scico = common.setup_scico()
     oracle = _oracle(scico)
